@@ -74,4 +74,20 @@ CHECKS = {
                   "quick": {"count": 1600, "budget": 70, "workers": 8},
                   "thorough": {"count": 400000, "budget": 900, "workers": 16}}],
     },
+    "C10": {
+        "level": "exploration",
+        "rule": ("three of four evaluations are S-SMRY cases: a synthetic producer over the real SummarySpecification/createSummaryFile with 1..4500 "
+                 "vectors (every third case at 1000k-3..1000k+3), FMTOUT x UNIFOUT, 1-6 report steps of 1-4 ministeps, optionally a chain of runs "
+                 "continuing each other at a seeded restart step; read back by ESmry (whole file, vector-list path in random order), by "
+                 "ESmry::make_esmry_file -> ExtESmry, with base-run history, and decoded by the independent codec. Every fourth is an S-RUN of a "
+                 "generated model with out::Summary + ExtSmryOutput under a plan-driven simulated wall clock; a reader probe opens BASE.ESMRY at "
+                 "every syscall boundary of the ESMRY writer. distinct = hash of (kind, vector count, flavour, chain, ministeps, clock pattern); "
+                 "non-trivial = >= 2 ministeps or >= 1000 vectors"),
+        "assumptions": ["values are compared with the exact float handed to the writer (formatted: printed precision)",
+                        "SMSPEC/UNSMRY are not probed mid-write (the property does not promise that); BASE.ESMRY is, because tmp+rename makes it complete at all times",
+                        "ESMRY is only produced for unformatted output (documented: request ignored with FMTOUT)"],
+        "bins": [{"name": "c10", "srcs": ["scen/c10_smry.cpp", "scen/srun/model.cpp", "scen/srun/driver.cpp"],
+                  "quick": {"count": 480, "budget": 75, "workers": 8},
+                  "thorough": {"count": 200000, "budget": 900, "workers": 16}}],
+    },
 }
